@@ -104,6 +104,8 @@ fn main() {
             eprintln!("STAT t1_dictionary_sizes transitions={} sizes={:?}", dsz, DICT_SIZES);
             let cl = t1::clones::<0>(&mut w) + t1::clones::<1>(&mut w) + t1::clones::<3>(&mut w) + t1::clones::<6>(&mut w) + t1::clones::<11>(&mut w);
             eprintln!("STAT t1_clones cases={} sizes=0,1,3,6,11", cl);
+            let uw = t1::unwinding::<0>(&mut w) + t1::unwinding::<1>(&mut w) + t1::unwinding::<4>(&mut w) + t1::unwinding::<7>(&mut w);
+            eprintln!("STAT t1_unwinding transitions={} sizes=0,1,4,7", uw);
             let ck = t1::cof_kinds::<8>(&mut w);
             eprintln!("STAT t1_cof_error_kinds transitions={}", ck);
             let rp = t1::repeat::<16>(&mut w) + t1::repeat::<64>(&mut w);
